@@ -233,9 +233,10 @@ class SSHX11ClientForwarder(SSHForwarder):
             # drop the connection to the X server
             self.close()
         else:
+            # Keep whatever arrived behind the setup in the same segment
             self._inpbuf = (self._prefix + self._auth_proto +
                             self._auth_proto_pad + self._auth_data +
-                            self._auth_data_pad)
+                            self._auth_data_pad + self._inpbuf)
 
         self._recv_handler = None
         self._bytes_needed = 0
